@@ -624,6 +624,37 @@ def rng_random(I, st, rng, args, kw, node):
     return st.alloc(Arr(sh, elem, kind="ndarray", etype="real"), "arr")
 
 
+# ------------------------------------------------------------------------------------------------ user callables
+
+_FILT_LEN = z3.Function("filter_out_len", lib.ObjS, z3.IntSort(), z3.IntSort())
+_FILT_OUT = z3.Function("filter_out", lib.ObjS, z3.IntSort(), z3.IntSort(), z3.RealSort())
+
+
+def filter_call(I, st, f, args, kw, node):
+    """A user-supplied coordinate filter: ANY pure function of (the filter object, the series it is given)."""
+    used("user filter callable: a pure function of (filter object, identity of the 1-d series it is given) returning a "
+         "1-d real array; may not write its argument (frame: C08 analysis)")
+    if len(args) != 1 or kw:
+        raise Unsupported("filter called with other than one positional argument")
+    aid = lib.arrid(I, st, args[0])
+    n = _FILT_LEN(f.term, aid)
+    st.fact(n >= 0)
+    return st.alloc(Arr((n,), lambda t: _FILT_OUT(f.term, aid, to_z3(t)), kind="ndarray", etype="real"), "arr")
+
+
+def spec_filt(I, st, a, k, n):
+    f = a[0].val if isinstance(a[0], lib.Opt) else a[0]
+    return _FILT_OUT(f.term, lib.arrid(I, st, a[1]), to_z3(a[2]))
+
+
+def spec_filt_len(I, st, a, k, n):
+    f = a[0].val if isinstance(a[0], lib.Opt) else a[0]
+    return _FILT_LEN(f.term, lib.arrid(I, st, a[1]))
+
+
+lib.OPAQUE_CALL["Filter"] = filter_call
+lib.BUILTIN_FUNCS.update({"filt": spec_filt, "filt_len": spec_filt_len})
+
 # ------------------------------------------------------------------------------------------------ registration
 
 lib.LIB.update({
